@@ -67,6 +67,10 @@ class C11(CheckBase):
                 extract = False
             else:
                 case['cmd'] = [cmd, rng.choice(['out', 'out/', './out'])]
+                if rng.chance(0.3):
+                    # a physically short image (emulators produce these): reads fail part-way through the extraction,
+                    # which is one more path on which buffered output has to be accounted for
+                    case['short_by'] = rng.choice([1, 255, 256, 257, 1000, 4096, 20000])
                 case['globals'] = (['--drive', '0' + (rng.choice(s.volumes).label or '')] if (cmd == 'extract-files' and s.variant == 'opus') else [])
                 extract = True
         else:
@@ -147,6 +151,8 @@ class C11(CheckBase):
         case = dict(case)
         if case['tool'] == 'dfs':
             case['_img'] = dfswork.surface_of(case['disc']).render()
+            if case.get('short_by'):
+                case['_img'] = case['_img'][:max(1024, len(case['_img']) - case['short_by'])]
         elif 'lines' in case:
             case['_prog'] = bp.encode(case['dialect'], [(no, p) for no, p in case['lines']])
         ref = self.launch(ctx, out, case, [], ref=True)
